@@ -29,18 +29,24 @@ def nontrivial(e):
 
 
 def MC_RUNS(quick):
-    runs = [("MCCurveX", "MCCurveX", "the definition (lib/CurveX over lib/Tower) is a group law on every nonsingular curve "
-                                     "y^2 = x^3 + ax + b over F_9 = F_3[u]/(u^2+1) (all 72 curves: closure, identity, inverse, "
-                                     "commutativity on all pairs, associativity on ALL triples) and on a lattice of curves over "
-                                     "F_25... see cfg; XMulB/PMulB/TPowB (balanced recursion) = XMulNat/PMulNat/TExp", False),
-            ("MCFrbTwist", "MCFrbTwist", "tiny BN world (x = -1: p = 19, r = 13, F_361 = F_19[u]/(u^2+1)): on the sextic twist "
-                                         "of order 13 * 25 the untwist-Frobenius-twist map with the constants as ep2_curve_set_twist "
-                                         "derives them is an endomorphism, satisfies psi^2 - t psi + p = 0 on ALL 325 points, acts "
-                                         "as [p] exactly on the 13 points of the order-r subgroup, and the cofactor formula of "
-                                         "ep2_mul_cof_bn sends ALL points into the subgroup", False)]
+    runs = [("MCCurveX", "MCCurveX", "the definition (lib/CurveX over lib/Tower) is a group law: all 81 pairs (a, b) over F_9 = "
+                                     "F_3[u]/(u^2+1), 72 nonsingular curves; closure, identity, inverse, commutativity on ALL pairs of "
+                                     "points, associativity on ALL triples, [#E]P = O; XMulB = XMulNat (all points, k <= 40), "
+                                     "TPowB = TExp, PMulB = PMulNat (balanced recursion = definition)", False),
+            ("MCFrbTwist", "MCFrbTwist", "tiny BN world (x = -1: p = 19, r = 13, t = 7, F_361 = F_19[u]/(u^2+1); every b with "
+                                         "#E(F_p) = 13, every xi = c + u neither square nor cube: 12 leaf states): exactly one of the "
+                                         "D/M twists has order 13 * 25; on it, with the Frobenius constants as ep2_curve_set_twist "
+                                         "derives them, psi is an additive map of the curve, psi^2 - [t]psi + [p] = 0 on ALL 325 points, "
+                                         "psi^i = [p^i mod r] (i = 1..3) on the 13 points annihilated by r, the cofactor map as coded in "
+                                         "ep2_mul_cof_bn sends ALL points into the order-r subgroup", False)]
     if not quick:
-        runs += [("MCCurveX", "MCCurveX_p5", "every nonsingular curve over F_25 = F_5[u]/(u^2+2)... sampled triples", False),
-                 ("MCCurveX", "MCCurveX_p7", "every nonsingular curve with a in {0, 1, u}, over F_49 = F_7[u]/(u^2+1), sampled triples", False)]
+        runs += [("MCCurveX", "MCCurveX_p5", "a in {0, 1, u, -3}, all b over F_25 = F_5[u]/(u^2-2): 100 curves; all pairs; associativity "
+                                             "on all triples (P, Q, R) with Q, R from every 6th point and the 2-torsion", False),
+                 ("MCCurveX", "MCCurveX_p7", "a in {0, 1, u, -3}, b = b0 + b1 u, b1 in {0, 1}, over F_49 = F_7[u]/(u^2+1): 56 curves; all "
+                                             "pairs; associativity with Q, R from every 10th point and the 2-torsion", False),
+                 ("MCFrbTwist", "MCFrbTwist_b12", "tiny BLS12 world (x = -2: p = 37, r = 13, t = -1, F_p2 = F_37[u]/(u^2-2)): twist of "
+                                                  "order 13 * 109, ALL 1417 points: psi endomorphism, characteristic equation, psi = [p] "
+                                                  "on the subgroup, ep2_mul_cof_b12's formula lands in the subgroup", False)]
     return runs
 
 
